@@ -25,7 +25,7 @@ ORDER = ["side_partial_cmp", "ub_partial_cmp", "ub_matches", "ub_try_into_range"
          "ubl_bounds_only", "ubl_is_sortable", "ubl_is_sorted", "ubl_has_negative_indices", "ubl_is_forward_only",
          "fast_try_from", "stream_try_from", "fb_try_from", "side_from_str", "ub_from_str",
          "ubl_unpack", "ubl_complement", "cut_bytes", "fast_output_parts", "fast_cut_record",
-         "fill_fields", "compress_delimiter", "trim", "maybe_replace", "fill_regex", "trim_regex", "compress_regex", "read_and_cut_lines", "cut_str", "print_field", "print_bof", "print_rest", "cut_lines", "read_and_cut_bytes", "get_last_bound"]
+         "fill_fields", "compress_delimiter", "trim", "maybe_replace", "fill_regex", "trim_regex", "compress_regex", "read_and_cut_lines", "cut_str", "print_field", "print_bof", "print_rest", "cut_lines", "read_and_cut_bytes", "get_last_bound", "lines_forward"]
 DEPS = {"ub_partial_cmp": ["side_partial_cmp"], "ub_from_range": ["ub_new"], "ub_unpack": ["ub_new", "ub_try_into_range"],
         "ub_complement": ["ub_try_into_range", "complement_std_range", "ub_from_range", "ub_new"],
         "ubl_is_sortable": ["ubl_bounds_only"], "ubl_is_sorted": ["ubl_bounds_only", "ub_partial_cmp", "side_partial_cmp"],
@@ -36,6 +36,7 @@ DEPS = {"ub_partial_cmp": ["side_partial_cmp"], "ub_from_range": ["ub_new"], "ub
         "fast_output_parts": ["ub_try_into_range"],
         "compress_delimiter": ["fill_fields"],
         "print_bof": ["ub_matches", "print_field"],
+        "lines_forward": ["ub_matches", "print_field", "print_bof"],
         "get_last_bound": ["fb_try_from", "ubl_is_forward_only", "ubl_bounds_only", "ubl_is_sortable", "ubl_is_sorted", "ubl_has_negative_indices", "ub_partial_cmp", "side_partial_cmp"],
         "read_and_cut_bytes": ["cut_bytes", "ub_try_into_range", "ubl_unpack", "ub_unpack", "ub_new"],
         "cut_lines": ["cut_str", "trim", "trim_regex", "fill_fields", "compress_delimiter", "compress_regex", "fill_regex", "ubl_complement", "ubl_unpack", "ub_try_into_range", "maybe_replace",
@@ -82,6 +83,7 @@ USES = {
     "read_and_cut_lines": ["C05"],
     "cut_str": ["C01", "C07", "C10", "C16"],
     "cut_lines": ["C05"],
+    "lines_forward": ["C05", "C13"],
     "get_last_bound": ["C03", "C19"],
     "read_and_cut_bytes": ["C06"],
     "print_field": ["C03", "C04"],
